@@ -106,6 +106,13 @@ class Store:
         self.gen = 0
 
 
+class NotHDF5:
+    """a regular file of `size` bytes (possibly 0, possibly symbolic) that is not an HDF5 file"""
+
+    def __init__(self, size):
+        self.size = size
+
+
 # ---------------------------------------------------------------------------
 # low-level ids / property lists
 # ---------------------------------------------------------------------------
@@ -157,6 +164,8 @@ class _h5f:
         OPEN_LOG.append(("open", p, flags))
         if p not in FS:
             raise OSError("Unable to open file (file does not exist)")
+        if isinstance(FS[p], NotHDF5):
+            raise OSError("Unable to open file (file signature not found)")
         return FileId(FS[p], p, flags)
 
 
@@ -936,6 +945,17 @@ def string_dtype(encoding="utf-8", length=None):
 class FakeOsPath:
     @staticmethod
     def exists(p):
+        return _norm_path(p) in FS
+
+    @staticmethod
+    def getsize(p):
+        st = FS.get(_norm_path(p))
+        if st is None:
+            raise FileNotFoundError(p)
+        return st.size if isinstance(st, NotHDF5) else 2048
+
+    @staticmethod
+    def isfile(p):
         return _norm_path(p) in FS
 
 
